@@ -2,7 +2,7 @@
 from ..rules import delivery, idioms
 from .common import declare
 
-RULES = ['TIMEDELTA-TOTAL', 'RESERVE-ALGEBRA', 'ATOMIC-RMW', 'EMIT-SIG', 'PASS-VALUE', 'SINGLE-CONSUMER', 'SERIAL-DRAIN', 'FIFO-END']
+RULES = ['TIMEDELTA-TOTAL', 'RESERVE-ALGEBRA', 'ATOMIC-RMW', 'EMIT-SIG', 'PASS-VALUE', 'SINGLE-CONSUMER', 'SERIAL-DRAIN', 'FIFO-END', 'EAGER-UPDATE']
 FLOORS = {'RESERVE-ALGEBRA': 4, 'ATOMIC-RMW': 1, 'EMIT-SIG': 3, 'PASS-VALUE': 2, 'SINGLE-CONSUMER': 1, 'SERIAL-DRAIN': 1,
           'FIFO-END': 1}
 
@@ -33,6 +33,7 @@ def run(ctx, R):
     R.run(delivery.check_single_consumer, ctx, R, [dl])
     R.run(delivery.check_serial_drain, ctx, R, [dl])
     R.run(delivery.check_fifo_end, ctx, R, [dl])
+    R.run(delivery.check_eager_update, ctx, R, [rl, dl])
 
 
 META['level'] += ' Durations are converted with total_seconds() (TIMEDELTA-TOTAL).'
